@@ -241,7 +241,7 @@ impl Teosd {
         // wait for the HTTP API
         let t0 = Instant::now();
         loop {
-            if t0.elapsed() > Duration::from_secs(30) || !matches!(t.child.try_wait(), Ok(None)) {
+            if t0.elapsed() > Duration::from_secs(30 * PATIENCE.load(std::sync::atomic::Ordering::Relaxed)) || !matches!(t.child.try_wait(), Ok(None)) {
                 return None;
             }
             let r = send(api, &Req { method: "GET".into(), path: "/ping".into(), body: vec![], content_length: false, content_type: None }, Duration::from_secs(1));
@@ -253,7 +253,7 @@ impl Teosd {
     }
 
     fn post(&self, path: &str, body: Value) -> Option<(u16, Value)> {
-        let r = send(self.api, &Req::post(path, body.to_string().as_bytes()), Duration::from_secs(10))?;
+        let r = send(self.api, &Req::post(path, body.to_string().as_bytes()), Duration::from_secs(10 * PATIENCE.load(std::sync::atomic::Ordering::Relaxed)))?;
         Some((r.status, serde_json::from_slice(&r.body).unwrap_or(Value::Null)))
     }
 
@@ -261,7 +261,7 @@ impl Teosd {
     fn wait_synced(&self, env: &Env) -> bool {
         let tip = env.lock().tip;
         let t0 = Instant::now();
-        while t0.elapsed() < Duration::from_secs(15) {
+        while t0.elapsed() < Duration::from_secs(15 * PATIENCE.load(std::sync::atomic::Ordering::Relaxed)) {
             if self.db.exists() && DbView::read(&self.db).last_known_block == Some(tip) {
                 return true;
             }
@@ -269,6 +269,14 @@ impl Teosd {
         }
         false
     }
+}
+
+/// Multiplier of every wait: 1 in the parallel run, 6 when a trace whose only fault was a wait that ran out is
+/// repeated on its own (real time on a loaded machine proves nothing).
+static PATIENCE: std::sync::atomic::AtomicU64 = std::sync::atomic::AtomicU64::new(1);
+
+fn is_a_wait_that_ran_out(e: &str) -> bool {
+    e.contains("within 15 s") || e.contains("did not come up") || e.contains("did not restart") || e.contains("did not catch up") || e.contains("no reply to")
 }
 
 fn free_ports() -> (u16, u16, u16) {
@@ -492,9 +500,19 @@ fn run_where(limit: usize, keep: impl Fn(&[Ev]) -> bool) -> (u64, Vec<(String, S
     let (res, _) = crate::explore::par_map(&ts, None, |_, (name, cfg, h)| run_trace(name, cfg, h));
     let mut ok = 0;
     let mut bad = Vec::new();
-    for ((name, _, _), r) in ts.iter().zip(res.into_iter()) {
+    for ((name, cfg, h), r) in ts.iter().zip(res.into_iter()) {
         match r {
             Some(Ok(())) => ok += 1,
+            Some(Err(e)) if is_a_wait_that_ran_out(&e) => {
+                // repeat it alone and with six times the patience before believing that teosd is stuck
+                PATIENCE.store(6, std::sync::atomic::Ordering::Relaxed);
+                let again = run_trace(name, cfg, h);
+                PATIENCE.store(1, std::sync::atomic::Ordering::Relaxed);
+                match again {
+                    Ok(()) => ok += 1,
+                    Err(e2) => bad.push((name.clone(), format!("{e2} (first attempt, in parallel with the others: {e})"))),
+                }
+            }
             Some(Err(e)) => bad.push((name.clone(), e)),
             None => {}
         }
